@@ -5,6 +5,7 @@ go 1.23
 toolchain go1.23.5
 
 require (
+	github.com/cactus/go-statsd-client/v5 v5.0.0
 	github.com/uber-go/tally/v4 v4.0.0
 	pgregory.net/rapid v1.3.0
 )
